@@ -58,13 +58,15 @@ for tc in ET.parse(junit).getroot().iter('testcase'):
 missing = sorted(stable - passed)
 # tests.eponine.tripoli4.test_common::test_parse_keff_auto_roundtrip is a hypothesis test with a rare falsifying example on the
 # unmodified tree as well (once found it is replayed from the worktree's .hypothesis database): re-run it alone on a fresh database
-FLAKY = 'tests.eponine.tripoli4.test_common::test_parse_keff_auto_roundtrip'
-if FLAKY in missing:
-    sh('rm -rf .hypothesis')
-    again = sh('/venv/bin/python -m pytest -q -p no:cacheprovider tests/eponine/tripoli4/test_common.py -k test_parse_keff_auto_roundtrip', timeout=900)
-    res['flaky_rerun'] = again.stdout[-200:]
-    if again.returncode == 0:
-        missing.remove(FLAKY)
+FLAKY = {'tests.eponine.tripoli4.test_common::test_parse_keff_auto_roundtrip': ('tests/eponine/tripoli4/test_common.py', 'test_parse_keff_auto_roundtrip'),
+         'tests.eponine.test_browser::test_build_index': ('tests/eponine/test_browser.py', 'test_build_index')}   # hypothesis tests with rare falsifying examples on the unmodified tree too
+for flaky, (path, name) in FLAKY.items():
+    if flaky in missing:
+        sh('rm -rf .hypothesis')
+        again = sh(f'/venv/bin/python -m pytest -q -p no:cacheprovider {path} -k {name}', timeout=900)
+        res.setdefault('flaky_rerun', {})[name] = again.stdout[-200:]
+        if again.returncode == 0:
+            missing.remove(flaky)
 res['suite'] = {'stable_expected': len(stable), 'stable_passed': len(stable & passed), 'missing': missing[:20]}
 res['confirmed'] = (rc_with != 0 and rc_without == 0 and not missing)
 json.dump(res, open(out + '/confirm.json', 'w'), indent=1)
